@@ -1,32 +1,20 @@
 import NopModel.Lemmas.RoundTrip
 import NopModel.Lemmas.ExtDec
+import NopModel.Lemmas.LangSound
+import NopModel.Lemmas.LangComplete
 /-! C04 — the decoder accepts exactly the documented language and reports the right error.
-**Partial**: the integer-class language is decided completely (all 256 prefixes × 8 kinds),
-completeness on everything the encoder emits is C01, acceptance of every admissible
-(non-minimal) integer class is proved for integer fields, and the error category is proved
-for each kind of single defect at the position where it occurs; the full two-way
-equivalence with an independent grammar for composite types rests on the correspondence. -/
+The documented language is the grammar `Lang` of NopModel/Lang.lean (written from
+docs/format.md, independently of the decoder's control flow). `C04_sound` and `C04_complete`
+prove the two inclusions for every type of the grammar, every destination content, every
+reader configuration; `C04_accepts_iff` is the "exactly when" of the property on a plain
+buffer; `C04_unambiguous` says an input has at most one reading. The error category is proved
+for each kind of single defect at the position where it occurs. -/
 namespace Nop
 
-/-- the documented rule: an integer of kind `k` accepts a fixint (negative fixints only for
-signed kinds) or an explicit class of the *same signedness* that is *no wider* than `k` -/
-def specIntAccept (k : IntKind) (n : Nat) : Bool :=
-  if n < 0x80 then true
-  else if 0xc0 ≤ n then k.signed
-  else if 0x80 ≤ n && n ≤ 0x83 then !k.signed && 2 ^ (n - 0x80) ≤ k.bytes
-  else if 0x84 ≤ n && n ≤ 0x87 then k.signed && 2 ^ (n - 0x84) ≤ k.bytes
-  else false
-
-/-- **Integer classes**: `Match` agrees with the documented rule on every prefix byte. -/
-theorem C04_int_classes (k : IntKind) (p : UInt8) : intMatch k p = specIntAccept k p.toNat := by
-  have tbl : (IntKind.all.all fun k => (List.range 256).all fun n =>
-      intMatch k (UInt8.ofNat n) == specIntAccept k n) = true := by decide +kernel
-  have hk : k ∈ IntKind.all := by cases k <;> simp [IntKind.all]
-  have h1 := List.all_eq_true.1 tbl k hk
-  have h2 := List.all_eq_true.1 h1 p.toNat (List.mem_range.2 (UInt8.toNat_lt p))
-  have hp : UInt8.ofNat p.toNat = p := UInt8.toNat_inj.1 (by simp [UInt8.toNat_ofNat'])
-  rw [hp] at h2
-  exact beq_iff_eq.1 h2
+/-- **Integer classes**: `Match` agrees with the documented rule (`specIntAccept`, Lang.lean) on
+every prefix byte. -/
+theorem C04_int_classes (k : IntKind) (p : UInt8) : intMatch k p = specIntAccept k p.toNat :=
+  Snd.intMatch_spec k p
 
 /-- **Any admissible class is accepted** and denotes `intOfPayload`: non-minimal encodings of
 integer fields are read, consuming exactly prefix + payload. -/
@@ -125,6 +113,82 @@ theorem C04_read_limit (s : Src) (n b : Nat) (fs : List Nat) (hfr : s.frames = b
 is the result of the whole -/
 theorem C04_error_propagates {α β} (m : M α) (f : α → M β) (s s' : Src) (e : Err)
     (h : m s = (.error e, s')) : (m >>= f) s = (.error e, s') := bind_err h
+
+/-- **Soundness: the decoder accepts only the documented language.** Whatever the type, the
+destination's prior contents and the reader configuration (end-of-data policy, Ensure policy,
+BoundedReader budgets, handle table): if `Read` succeeds from a healthy source, the bytes it
+consumed form a well-formed encoding of the type under docs/format.md (`Lang`), the value
+returned is the value those bytes denote, the source is left exactly after that encoding, and
+every enclosing budget admitted it. -/
+theorem C04_sound (t : Ty) (prior : Val) (s : Src) (v : Val) (s' : Src) (hc : s.fault = .none)
+    (h : decInto t prior s = (.ok v, s')) :
+    ∃ bs rest, s.bytes = bs ++ rest ∧ s' = s.adv bs.length ∧ framesOk bs.length s.frames = true ∧
+      Lang s.handles t v bs := by
+  have hs : Snd (decInto t prior) (fun hs v bs => Lang hs t v bs) := by
+    unfold decInto
+    exact Snd.mono (Snd.withPrefix (fun p => snd_decPayload t p prior)) (fun _ _ _ h => h)
+  exact hs s v s' hc h
+
+/-- **Completeness: every well-formed encoding is accepted.** If `bs` is in the documented
+language of `t` and denotes `v`, then on any healthy source that starts with `bs` - followed by
+anything, under any budgets that admit `bs`, into a destination holding anything - `Read`
+succeeds, yields `v` and consumes exactly `bs`. -/
+theorem C04_complete (hs : List Int) (t : Ty) (v : Val) (bs : Bytes) (h : Lang hs t v bs) (prior : Val)
+    (s : Src) (rest : Bytes) (hc : s.fault = .none) (hb : s.bytes = bs ++ rest)
+    (hf : framesOk bs.length s.frames = true) (hh : s.handles = hs) :
+    decInto t prior s = (.ok v, s.adv bs.length) := by
+  have hd : DecOK (decInto t prior) v bs (psOf hs) := by
+    unfold decInto
+    exact cmp_elem (fun q pl hq => cmp_decPayload hs t q prior v pl hq) h
+  exact hd s rest hc hb hf (by rw [hh]; exact resolves_psOf hs)
+
+/-- **Exactly when.** On a healthy plain reader (no enclosing budget): `Read` succeeds with
+value `v` having consumed `n` bytes if and only if the first `n` bytes of the input are a
+well-formed encoding of the type denoting `v`. -/
+theorem C04_accepts_iff (t : Ty) (prior : Val) (s : Src) (hc : s.fault = .none) (hfr : s.frames = [])
+    (v : Val) (n : Nat) (hn : n ≤ s.bytes.length) :
+    decInto t prior s = (.ok v, s.adv n) ↔ Lang s.handles t v (s.bytes.take n) := by
+  constructor
+  · intro h
+    obtain ⟨bs, rest, hb, hs', _, hl⟩ := C04_sound t prior s v (s.adv n) hc h
+    have hlen : bs.length = n := by
+      have h1 : (s.adv n).bytes.length = (s.adv bs.length).bytes.length := by rw [← hs']
+      simp only [adv_bytes, List.length_drop] at h1
+      have h2 : bs.length ≤ s.bytes.length := by rw [hb]; simp
+      omega
+    have : s.bytes.take n = bs := by rw [hb, ← hlen]; simp
+    rw [this]; exact hl
+  · intro h
+    have := C04_complete s.handles t v (s.bytes.take n) h prior s (s.bytes.drop n) hc
+      (List.take_append_drop n s.bytes).symm (by rw [hfr]; rfl) rfl
+    rw [this]
+    congr 2
+    simp; omega
+
+/-- **An input has at most one reading**: two well-formed encodings of the same type that are
+both prefixes of one byte string are the same encoding and denote the same value. -/
+theorem C04_unambiguous (hs : List Int) (t : Ty) (v v' : Val) (bs bs' r r' : Bytes)
+    (h : Lang hs t v bs) (h' : Lang hs t v' bs') (he : bs ++ r = bs' ++ r') : v = v' ∧ bs = bs' := by
+  let s : Src := { bytes := bs ++ r, handles := hs }
+  have h1 := C04_complete hs t v bs h (dflt t) s r rfl rfl rfl rfl
+  have h2 := C04_complete hs t v' bs' h' (dflt t) s r' rfl he rfl rfl
+  rw [h1] at h2
+  simp only [Prod.mk.injEq, Except.ok.injEq] at h2
+  obtain ⟨hv, hs2⟩ := h2
+  refine ⟨hv, ?_⟩
+  have hl : (s.adv bs.length).bytes.length = (s.adv bs'.length).bytes.length := by rw [hs2]
+  simp only [adv_bytes, List.length_drop] at hl
+  have hlen : bs.length = bs'.length := by
+    have e1 : s.bytes.length = bs.length + r.length := by simp [s]
+    have e2 : s.bytes.length = bs'.length + r'.length := by simp [s, he]
+    omega
+  exact List.append_inj_left he hlen
+
+/-- non-vacuity of the grammar: a non-minimal size class (U16 for the count 2) inside a vector
+of optional strings is in the language, and the decoder reads it -/
+example : decInto (.seq .vector (.opt (.str 0 1))) (.list [])
+    ({ bytes := [0xba, 0x81, 2, 0, 0xbe, 0xbd, 1, 104, 7] } : Src) =
+    (.ok (.list [.nil, .tag 1 (.list [.int 104])]), { bytes := [7] }) := by rfl
 
 /-- non-vacuity -/
 example : specIntAccept .i16 0x85 = true ∧ specIntAccept .i16 0x86 = false ∧ specIntAccept .u32 0xc5 = false := by
